@@ -1,3 +1,351 @@
 import Iscp.Model.Store
 import Iscp.Model.Corr
+import Iscp.Lemmas.C07
 /- helper lemmas for Props/C06.lean -/
+
+namespace Iscp.Corr
+open Iscp
+
+theorem run_nil (s : St) : run s [] = (s, []) := rfl
+
+theorem run_cons (s : St) (e : Ev) (r : List Ev) :
+    run s (e :: r) = ((run (step s e).1 r).1, (step s e).2 :: (run (step s e).1 r).2) := rfl
+
+/-! ### list helpers -/
+
+theorem nodup_map_filter {α β} (f : α → β) (p : α → Bool) (l : List α) (h : (l.map f).Nodup) :
+    ((l.filter p).map f).Nodup :=
+  List.Nodup.sublist ((List.filter_sublist (p := p) (l := l)).map f) h
+
+theorem inj_of_nodup_map {α β} (f : α → β) : ∀ (l : List α), (l.map f).Nodup →
+    ∀ a ∈ l, ∀ b ∈ l, f a = f b → a = b := by
+  intro l
+  induction l with
+  | nil => intro _ a ha; cases ha
+  | cons x r ih =>
+    intro h a ha b hb hab
+    rw [List.map_cons, List.nodup_cons] at h
+    rcases List.mem_cons.mp ha with rfl | ha'
+    · rcases List.mem_cons.mp hb with rfl | hb'
+      · rfl
+      · exact absurd (hab ▸ List.mem_map_of_mem hb') h.1
+    · rcases List.mem_cons.mp hb with rfl | hb'
+      · exact absurd (hab ▸ List.mem_map_of_mem ha') h.1
+      · exact ih h.2 a ha' b hb' hab
+
+/-! ### step equations -/
+
+theorem step_req (s : St) (c : Nat) (k : Kind) :
+    step s (.req c k) =
+      ({ cur := (s.cur + 2) % 4294967296, pending := alPut s.cur c s.pending,
+         waiting := ⟨c, s.cur, k⟩ :: s.waiting.filter (·.caller ≠ c) }, .issued s.cur) := rfl
+
+theorem step_resp_none (s : St) (id : Nat) (rk : RKind) (h : alGet id s.pending = none) :
+    step s (.resp id rk) = (s, .ignored) := by
+  simp only [step, h]
+
+theorem step_resp_stale (s : St) (id : Nat) (rk : RKind) (c : Nat) (h : alGet id s.pending = some c)
+    (hf : s.waiting.find? (fun w => w.caller = c ∧ w.id = id) = none) :
+    step s (.resp id rk) = ({ s with pending := alDel id s.pending }, .stale) := by
+  simp only [step, h, hf]
+
+theorem step_resp_found (s : St) (id : Nat) (rk : RKind) (c : Nat) (w : Waiter) (h : alGet id s.pending = some c)
+    (hf : s.waiting.find? (fun w => w.caller = c ∧ w.id = id) = some w) :
+    step s (.resp id rk) =
+      ({ s with pending := alDel id s.pending, waiting := s.waiting.filter (·.caller ≠ c) },
+       if expected w.kind = rk then .delivered c rk else .mismatch c rk) := by
+  simp only [step, h, hf]
+  split <;> rfl
+
+theorem step_cancel_none (s : St) (c : Nat) (hf : s.waiting.find? (·.caller = c) = none) :
+    step s (.cancel c) = (s, .noop) := by
+  simp only [step, hf]
+
+theorem step_cancel_some (s : St) (c : Nat) (w : Waiter) (hf : s.waiting.find? (·.caller = c) = some w) :
+    step s (.cancel c) = ({ s with waiting := s.waiting.filter (·.caller ≠ c) }, .cancelled c) := by
+  simp only [step, hf]
+
+/-- all the ways a `resp` step can go -/
+theorem step_resp_cases (s : St) (id : Nat) (rk : RKind) :
+    (alGet id s.pending = none ∧ step s (.resp id rk) = (s, .ignored)) ∨
+    (∃ c, alGet id s.pending = some c ∧ s.waiting.find? (fun w => w.caller = c ∧ w.id = id) = none ∧
+      step s (.resp id rk) = ({ s with pending := alDel id s.pending }, .stale)) ∨
+    (∃ c w, alGet id s.pending = some c ∧ s.waiting.find? (fun w => w.caller = c ∧ w.id = id) = some w ∧
+      w ∈ s.waiting ∧ w.caller = c ∧ w.id = id ∧
+      step s (.resp id rk) =
+        ({ s with pending := alDel id s.pending, waiting := s.waiting.filter (·.caller ≠ c) },
+         if expected w.kind = rk then .delivered c rk else .mismatch c rk)) := by
+  cases h : alGet id s.pending with
+  | none => exact .inl ⟨rfl, step_resp_none s id rk h⟩
+  | some c =>
+    cases hf : s.waiting.find? (fun w => w.caller = c ∧ w.id = id) with
+    | none => exact .inr (.inl ⟨c, rfl, hf, step_resp_stale s id rk c h hf⟩)
+    | some w =>
+      have hm := List.mem_of_find?_eq_some hf
+      have hp := List.find?_some hf
+      simp only [decide_eq_true_eq] at hp
+      exact .inr (.inr ⟨c, w, rfl, hf, hm, hp.1, hp.2, step_resp_found s id rk c w h hf⟩)
+
+theorem step_resp_cur (s : St) (id : Nat) (rk : RKind) : (step s (.resp id rk)).1.cur = s.cur := by
+  rcases step_resp_cases s id rk with ⟨_, h⟩ | ⟨c, _, _, h⟩ | ⟨c, w, _, _, _, _, _, h⟩ <;> rw [h]
+
+theorem step_resp_not_issued (s : St) (id : Nat) (rk : RKind) (i : Nat) : (step s (.resp id rk)).2 ≠ .issued i := by
+  rcases step_resp_cases s id rk with ⟨_, h⟩ | ⟨c, _, _, h⟩ | ⟨c, w, _, _, _, _, _, h⟩ <;> rw [h]
+  · simp
+  · simp
+  · dsimp only; split <;> simp
+
+theorem step_cancel_cases (s : St) (c : Nat) :
+    (s.waiting.find? (·.caller = c) = none ∧ step s (.cancel c) = (s, .noop)) ∨
+    (∃ w, s.waiting.find? (·.caller = c) = some w ∧
+      step s (.cancel c) = ({ s with waiting := s.waiting.filter (·.caller ≠ c) }, .cancelled c)) := by
+  cases hf : s.waiting.find? (·.caller = c) with
+  | none => exact .inl ⟨rfl, step_cancel_none s c hf⟩
+  | some w => exact .inr ⟨w, rfl, step_cancel_some s c w hf⟩
+
+theorem step_cancel_cur (s : St) (c : Nat) : (step s (.cancel c)).1.cur = s.cur := by
+  rcases step_cancel_cases s c with ⟨_, h⟩ | ⟨w, _, h⟩ <;> rw [h]
+
+theorem step_cancel_not_issued (s : St) (c : Nat) (i : Nat) : (step s (.cancel c)).2 ≠ .issued i := by
+  rcases step_cancel_cases s c with ⟨_, h⟩ | ⟨w, _, h⟩ <;> rw [h] <;> simp
+
+/-! ### ids: copies of `issuedIds` / `numReqs` of Props/C06.lean (defined there, after this file) -/
+
+def ids : List Out → List Nat
+  | [] => []
+  | .issued id :: r => id :: ids r
+  | _ :: r => ids r
+
+def nreq : List Ev → Nat
+  | [] => 0
+  | .req _ _ :: r => nreq r + 1
+  | _ :: r => nreq r
+
+theorem ids_cons_not_issued (o : Out) (l : List Out) (h : ∀ i, o ≠ .issued i) : ids (o :: l) = ids l := by
+  cases o <;> first | rfl | exact absurd rfl (h _)
+
+theorem ids_main (evs : List Ev) : ∀ (s : St), s.cur % 2 = 0 → s.cur + 2 * nreq evs < 4294967296 →
+    (∀ id ∈ ids (run s evs).2, id % 2 = 0 ∧ s.cur ≤ id ∧ id < 4294967296) ∧ (ids (run s evs).2).Nodup := by
+  induction evs with
+  | nil => intro s _ _; exact ⟨fun _ h => (by cases h), List.nodup_nil⟩
+  | cons e r ih =>
+    intro s hev hb
+    rw [run_cons]
+    cases e with
+    | req c k =>
+      simp only [nreq] at hb
+      have hcur : (step s (.req c k)).1.cur = s.cur + 2 := by
+        rw [step_req]; dsimp only; omega
+      have := ih (step s (.req c k)).1 (by rw [hcur]; omega) (by rw [hcur]; omega)
+      rw [hcur] at this
+      obtain ⟨h1, h2⟩ := this
+      have ho : (step s (.req c k)).2 = .issued s.cur := rfl
+      rw [ho]
+      simp only [ids]
+      refine ⟨?_, ?_⟩
+      · intro id hid
+        rcases List.mem_cons.mp hid with rfl | hid
+        · exact ⟨hev, Nat.le_refl _, by omega⟩
+        · have := h1 id hid; omega
+      · refine List.nodup_cons.mpr ⟨fun hm => ?_, h2⟩
+        have := h1 _ hm; omega
+    | resp id rk =>
+      simp only [nreq] at hb
+      rw [ids_cons_not_issued _ _ (step_resp_not_issued s id rk)]
+      have := ih (step s (.resp id rk)).1 (by rw [step_resp_cur]; exact hev) (by rw [step_resp_cur]; exact hb)
+      rw [step_resp_cur] at this
+      exact this
+    | cancel c =>
+      simp only [nreq] at hb
+      rw [ids_cons_not_issued _ _ (step_cancel_not_issued s c)]
+      have := ih (step s (.cancel c)).1 (by rw [step_cancel_cur]; exact hev) (by rw [step_cancel_cur]; exact hb)
+      rw [step_cancel_cur] at this
+      exact this
+
+/-! ### strengthened invariant -/
+
+structure SInv (s : St) : Prop where
+  registered : ∀ w ∈ s.waiting, alGet w.id s.pending = some w.caller
+  oneEach : (s.waiting.map (·.caller)).Nodup
+  idsDistinct : (s.waiting.map (·.id)).Nodup
+  fresh : ∀ w ∈ s.waiting, w.id < s.cur
+
+theorem sinv_init : SInv {} :=
+  ⟨fun _ h => (by cases h), List.nodup_nil, List.nodup_nil, fun _ h => (by cases h)⟩
+
+theorem sinv_filter (s : St) (h : SInv s) (p : Waiter → Bool) : SInv { s with waiting := s.waiting.filter p } :=
+  ⟨fun w hw => h.registered w (List.mem_filter.mp hw).1,
+   nodup_map_filter _ p _ h.oneEach,
+   nodup_map_filter _ p _ h.idsDistinct,
+   fun w hw => h.fresh w (List.mem_filter.mp hw).1⟩
+
+theorem sinv_req (s : St) (h : SInv s) (c : Nat) (k : Kind) (hb : s.cur + 2 < 4294967296) :
+    SInv (step s (.req c k)).1 := by
+  rw [step_req]
+  have hcur : (s.cur + 2) % 4294967296 = s.cur + 2 := by omega
+  have hf := sinv_filter s h (fun w => decide (w.caller ≠ c))
+  constructor
+  · intro w hw
+    rcases List.mem_cons.mp hw with rfl | hw
+    · exact alGet_alPut_self _ _ _
+    · have hlt := hf.fresh w hw
+      have hne : w.id ≠ s.cur := by dsimp only at hlt; omega
+      dsimp only
+      rw [alGet_alPut_ne hne]
+      exact hf.registered w hw
+  · dsimp only
+    rw [List.map_cons, List.nodup_cons]
+    refine ⟨fun hm => ?_, hf.oneEach⟩
+    obtain ⟨w, hw, hwc⟩ := List.mem_map.mp hm
+    have := (List.mem_filter.mp hw).2
+    simp only [decide_eq_true_eq] at this
+    exact this hwc
+  · dsimp only
+    rw [List.map_cons, List.nodup_cons]
+    refine ⟨fun hm => ?_, hf.idsDistinct⟩
+    obtain ⟨w, hw, hwc⟩ := List.mem_map.mp hm
+    have := hf.fresh w hw
+    dsimp only at this hwc
+    omega
+  · intro w hw
+    dsimp only
+    rw [hcur]
+    rcases List.mem_cons.mp hw with rfl | hw
+    · dsimp only; omega
+    · have := hf.fresh w hw
+      dsimp only at this; omega
+
+theorem sinv_resp (s : St) (h : SInv s) (id : Nat) (rk : RKind) : SInv (step s (.resp id rk)).1 := by
+  rcases step_resp_cases s id rk with ⟨_, e⟩ | ⟨c, hp, hf, e⟩ | ⟨c, w0, hp, _, _, _, _, e⟩ <;> rw [e]
+  · exact h
+  · refine ⟨fun w hw => ?_, h.oneEach, h.idsDistinct, h.fresh⟩
+    dsimp only at hw ⊢
+    have hne : w.id ≠ id := by
+      intro hid
+      have hr := h.registered w hw
+      rw [hid, hp] at hr
+      have := List.find?_eq_none.mp hf w hw
+      simp only [decide_eq_true_eq, not_and] at this
+      exact this (Option.some.inj hr).symm hid
+    rw [alGet_alDel_ne hne]
+    exact h.registered w hw
+  · have hf := sinv_filter s h (fun w => decide (w.caller ≠ c))
+    refine ⟨fun w hw => ?_, hf.oneEach, hf.idsDistinct, hf.fresh⟩
+    dsimp only at hw ⊢
+    have hmem := List.mem_filter.mp hw
+    have hc : w.caller ≠ c := by simpa only [decide_eq_true_eq] using hmem.2
+    have hne : w.id ≠ id := by
+      intro hid
+      have hr := h.registered w hmem.1
+      rw [hid, hp] at hr
+      exact hc (Option.some.inj hr).symm
+    rw [alGet_alDel_ne hne]
+    exact h.registered w hmem.1
+
+theorem sinv_cancel (s : St) (h : SInv s) (c : Nat) : SInv (step s (.cancel c)).1 := by
+  rcases step_cancel_cases s c with ⟨_, e⟩ | ⟨w, _, e⟩ <;> rw [e]
+  · exact h
+  · exact sinv_filter s h _
+
+theorem sinv_run (evs : List Ev) : ∀ (s : St), SInv s → s.cur + 2 * nreq evs < 4294967296 → SInv (run s evs).1 := by
+  induction evs with
+  | nil => intro s h _; exact h
+  | cons e r ih =>
+    intro s h hb
+    rw [run_cons]
+    cases e with
+    | req c k =>
+      simp only [nreq] at hb
+      have hcur : (step s (.req c k)).1.cur = s.cur + 2 := by
+        rw [step_req]; dsimp only; omega
+      exact ih _ (sinv_req s h c k (by omega)) (by rw [hcur]; omega)
+    | resp id rk =>
+      simp only [nreq] at hb
+      exact ih _ (sinv_resp s h id rk) (by rw [step_resp_cur]; exact hb)
+    | cancel c =>
+      simp only [nreq] at hb
+      exact ih _ (sinv_cancel s h c) (by rw [step_cancel_cur]; exact hb)
+
+/-! ### single-step facts -/
+
+theorem own_response_aux (s : St) (id : Nat) (rk : RKind) (c : Nat) (s' : St)
+    (h : step s (.resp id rk) = (s', .delivered c rk)) :
+    ∃ w ∈ s.waiting, w.caller = c ∧ w.id = id ∧ expected w.kind = rk ∧ alGet id s.pending = some c := by
+  rcases step_resp_cases s id rk with ⟨_, e⟩ | ⟨c', _, _, e⟩ | ⟨c', w, hp, _, hm, hc, hi, e⟩ <;> rw [e] at h
+  · simp at h
+  · simp at h
+  · by_cases hk : expected w.kind = rk
+    · rw [if_pos hk] at h
+      simp only [Prod.mk.injEq, Out.delivered.injEq, and_true] at h
+      obtain ⟨_, rfl⟩ := h
+      exact ⟨w, hm, hc, hi, hk, hp⟩
+    · rw [if_neg hk] at h
+      simp at h
+
+theorem typed_aux (s : St) (id : Nat) (rk : RKind) (c : Nat) (s' : St)
+    (h : step s (.resp id rk) = (s', .mismatch c rk)) :
+    ∃ w ∈ s.waiting, w.caller = c ∧ w.id = id ∧ expected w.kind ≠ rk := by
+  rcases step_resp_cases s id rk with ⟨_, e⟩ | ⟨c', _, _, e⟩ | ⟨c', w, hp, _, hm, hc, hi, e⟩ <;> rw [e] at h
+  · simp at h
+  · simp at h
+  · by_cases hk : expected w.kind = rk
+    · rw [if_pos hk] at h
+      simp at h
+    · rw [if_neg hk] at h
+      simp only [Prod.mk.injEq, Out.mismatch.injEq, and_true] at h
+      obtain ⟨_, rfl⟩ := h
+      exact ⟨w, hm, hc, hi, hk⟩
+
+theorem others_undisturbed_aux (s : St)
+    (hreg : ∀ w ∈ s.waiting, alGet w.id s.pending = some w.caller)
+    (hone : (s.waiting.map (·.caller)).Nodup)
+    (id : Nat) (rk : RKind) (w : Waiter) (hw : w ∈ s.waiting) (hne : w.id ≠ id) :
+    w ∈ (step s (.resp id rk)).1.waiting ∧ alGet w.id (step s (.resp id rk)).1.pending = some w.caller := by
+  rcases step_resp_cases s id rk with ⟨_, e⟩ | ⟨c, _, _, e⟩ | ⟨c, w0, hp, _, hm, hc, hi, e⟩ <;> rw [e]
+  · exact ⟨hw, hreg w hw⟩
+  · dsimp only
+    rw [alGet_alDel_ne hne]
+    exact ⟨hw, hreg w hw⟩
+  · dsimp only
+    rw [alGet_alDel_ne hne]
+    refine ⟨List.mem_filter.mpr ⟨hw, ?_⟩, hreg w hw⟩
+    simp only [decide_eq_true_eq]
+    intro hcw
+    have := inj_of_nodup_map (·.caller) s.waiting hone w hw w0 hm (hcw.trans hc.symm)
+    exact hne (this ▸ hi)
+
+theorem duplicate_ignored_aux (s : St) (id : Nat) (rk rk' : RKind) :
+    (step (step s (.resp id rk)).1 (.resp id rk')).2 = .ignored := by
+  have key : alGet id (step s (.resp id rk)).1.pending = none := by
+    rcases step_resp_cases s id rk with ⟨hn, e⟩ | ⟨c, _, _, e⟩ | ⟨c, w0, _, _, _, _, _, e⟩ <;> rw [e]
+    · exact hn
+    · exact alGet_alDel_self _ _
+    · exact alGet_alDel_self _ _
+  rw [step_resp_none _ id rk' key]
+
+theorem cancel_isolated_aux (s : St) (c : Nat) :
+    (step s (.cancel c)).1.pending = s.pending ∧
+    (step s (.cancel c)).1.waiting = s.waiting.filter (·.caller ≠ c) := by
+  rcases step_cancel_cases s c with ⟨hf, e⟩ | ⟨w, _, e⟩ <;> rw [e]
+  · refine ⟨rfl, (List.filter_eq_self.mpr ?_).symm⟩
+    intro w hw
+    have := List.find?_eq_none.mp hf w hw
+    simpa only [decide_eq_true_eq, decide_not, Bool.not_eq_true', decide_eq_false_iff_not] using this
+  · exact ⟨rfl, rfl⟩
+
+theorem cancelled_stale_aux (s : St)
+    (hreg : ∀ w ∈ s.waiting, alGet w.id s.pending = some w.caller)
+    (w : Waiter) (hw : w ∈ s.waiting) (rk : RKind) :
+    (step (step s (.cancel w.caller)).1 (.resp w.id rk)).2 = .stale := by
+  obtain ⟨h1, h2⟩ := cancel_isolated_aux s w.caller
+  have hp : alGet w.id (step s (.cancel w.caller)).1.pending = some w.caller := by rw [h1]; exact hreg w hw
+  have hf : (step s (.cancel w.caller)).1.waiting.find? (fun w' => w'.caller = w.caller ∧ w'.id = w.id) = none := by
+    rw [h2, List.find?_eq_none]
+    intro w' hw'
+    have := (List.mem_filter.mp hw').2
+    simp only [decide_eq_true_eq] at this
+    simp only [decide_eq_true_eq, not_and]
+    intro hc; exact absurd hc this
+  rw [step_resp_stale _ _ _ _ hp hf]
+
+end Iscp.Corr
